@@ -137,6 +137,10 @@ pub struct OverCase {
     pub pads: Vec<u8>,
     pub ch: Chunking,
     pub seed: u32,
+    /// a GetValues record (gap selector, size relative to the tight limit) carrying an unknown
+    /// name-value pair of about buffer size, placed before or between the Params records
+    #[serde(default)]
+    pub gv_over: Option<(u16, i16)>,
 }
 
 fn test_over(c: &OverCase) -> TestResult {
@@ -148,9 +152,21 @@ fn test_over(c: &OverCase) -> TestResult {
     if max_other + 13 > b {
         return Ok(Outcome::new(false).label("other-pair-over-bound"));
     }
+    let mut noise = Vec::new();
+    let mut gv_total = 0usize;
+    if let Some((gap, over)) = c.gv_over {
+        gv_total = (eff as i64 - 8 + over as i64).clamp(1, 65_000) as usize;
+        let nlen = 1 + (c.seed as usize % 20).min(gv_total - 1);
+        noise.push((gap, Noise::GetValues {
+            items: vec![traffic::GvItem::Other(Blob::Gen { len: nlen as u32, seed: c.seed ^ 5 }, Blob::Gen { len: (gv_total - nlen) as u32, seed: c.seed ^ 9 })],
+            trunc: 0,
+            pad: (c.seed % 9) as u8,
+            long: false,
+        }));
+    }
     let sc = SuffCase {
         b: c.b, delta: 0, name_share: c.name_share, long_n: false, long_v: false, before: c.before.clone(), after: vec![],
-        cut: c.cut.clone(), pads: c.pads.clone(), noise: vec![], id: 9, role: 1, chunkings: vec![], seed: c.seed,
+        cut: c.cut.clone(), pads: c.pads.clone(), noise, id: 9, role: 1, chunkings: vec![], seed: c.seed,
     };
     let (recs, w, _) = build_suff(&sc, total);
     let m = model::preamble_model(&recs, 1);
@@ -164,7 +180,7 @@ fn test_over(c: &OverCase) -> TestResult {
         match p.into_request() {
             Ok((req, _)) => check_request(&req, mreq)?,
             Err(e) if err_kind(&e) == ErrKind::StuckOnInput => {
-                vensure!(total + 13 > b, "c06-stuck-within-bound", "StuckOnInput for a pair of {total} bytes with buffer_size {b}");
+                vensure!(total + 13 > b || gv_total + 13 > b, "c06-stuck-within-bound", "StuckOnInput for pairs of {total} (Params) / {gv_total} (GetValues) bytes with buffer_size {b}");
                 label = "stuck-reported";
             },
             Err(e) => vfail!("c01-error", "unexpected error {e:?}"),
@@ -223,7 +239,11 @@ fn over_strategy() -> BoxedStrategy<OverCase> {
         gen::chunking(),
         any::<u32>(),
     )
-        .prop_map(|(b, over, name_share, before, cut, pads, ch, seed)| OverCase { b, over, name_share, before, cut, pads, ch, seed })
+        .prop_map(|(b, over, name_share, before, cut, pads, ch, seed)| {
+            // derived: one case in three carries a GetValues record with a pair around the limit
+            let gv_over = if seed % 3 == 0 { Some(((seed >> 8) as u16, [-20i16, -9, -8, -7, -1, 0, 1, 5, 40, 300][(seed >> 3) as usize % 10])) } else { None };
+            OverCase { b, over, name_share, before, cut, pads, ch, seed, gv_over }
+        })
         .boxed()
 }
 
@@ -270,6 +290,14 @@ pub fn property() -> Property {
                 1_500_000,
                 |_| suff_strategy(),
                 test_suff,
+            ),
+            prop_sub(
+                "sufficiency_in_chain",
+                "the C05 conversion chain seen from C06: request parsers that are *not* fresh (obtained from a stream parser together with 0..buffer bytes of look-ahead, including a completely full buffer) must parse every within-bound preamble of the following request without StuckOnInput; traffic, hand-off points and oracle as in C05 `chain`; non-trivial = >=2 requests and >=1 hand-off carrying look-ahead; distinct = hash of the case",
+                20_000,
+                500_000,
+                |_| crate::props::c05::case_strategy(),
+                crate::props::c05::test,
             ),
             prop_sub(
                 "converse",
